@@ -10,7 +10,7 @@
 //         S i vs k c1..ck   query SingleTRUCChecks(built[i], vsize=vs (or real when -1), conflicts=c1..ck)
 //         K k i1..ik package submission under the rules
 //         Q k i1..ik vs     query PackageTRUCChecks for every member (vsize=vs or real when -1)
-//         R i        removeRecursive(built[i]);   B i   removeForBlock({built[i]})
+//         R i        removeRecursive(built[i]);   B i   removeForBlock(in-mempool ancestors of built[i] ++ [built[i]])
 //   output: one token per op, then "pool=" idx:anc:desc,... and the policy-limit answer of the mempool
 #include <drv_common.h>
 #include <arith_uint256.h>
@@ -258,8 +258,20 @@ int main(int argc, char** argv)
                 pool.removeRecursive(*tx, MemPoolRemovalReason::EXPIRY);
                 tok = "R";
             } else if (op == "B") {
+                // a block containing the transaction also contains its unconfirmed ancestors
                 const auto& tx = built.at(vd::ull(w.at(p++)));
-                pool.removeForBlock({tx});
+                std::set<Txid> anc;
+                std::vector<CTransactionRef> todo{tx};
+                while (!todo.empty()) {
+                    CTransactionRef t = todo.back(); todo.pop_back();
+                    for (const auto& in : t->vin) {
+                        if (pool.exists(in.prevout.hash) && anc.insert(in.prevout.hash).second) todo.push_back(pool.get(in.prevout.hash));
+                    }
+                }
+                std::vector<CTransactionRef> vtx;
+                for (size_t b = 0; b < nb; ++b) if (anc.count(built[b]->GetHash()) && built[b] != tx) vtx.push_back(built[b]);
+                vtx.push_back(tx);
+                pool.removeForBlock(vtx);
                 tok = "B";
             } else return "BADCASE op " + op;
             out += (k ? " " : "") + tok;
